@@ -41,6 +41,9 @@ pub fn gen_name(rng: &mut Rng, k: usize) -> String {
         3 => format!("/abs/{k}"),
         4 => format!("émoji-😀-{k}"),
         5 => format!("with space {k}"),
+        6 => format!("back\\slash\\{k}"),
+        7 => format!("trailing-dot-{k}. "),
+        8 => format!("nul\0tab\tnl\n{k}"),
         _ => format!("f{k}"),
     }
 }
